@@ -27,6 +27,11 @@ static Bytes genMeta(Dec &d) { // schema-valid metadata record content, children
     if (d.flag()) kids.push_back(Tlv::str(0x02, "m" + name));
     if (d.flag()) kids.push_back(Tlv::u64(0x03, d.pick(65536)));
     if (d.flag()) kids.push_back(Tlv::u64(0x04, 1400000000000000ULL + d.pick(65536)));
+    // exactly one of the two header flags on a sub-element (legal: flags of known elements are not interpreted, an unknown element with only
+    // the non-critical flag is skipped); the step hash covers these octets exactly as received
+    unsigned fl = d.pick(6);
+    if (fl == 1) { Bytes pl; unsigned n = d.pick(5); for (unsigned i = 0; i < n; i++) pl.push_back(d.byte()); kids.push_back(Tlv::raw(d.flag() ? 0x0a + d.pick(0x14) : 0x20 + d.pick(0x1fdf), pl, true, false)); }
+    else if (fl == 2) { Tlv &k = kids[d.pick((uint32_t)kids.size())]; if (d.flag()) k.N = true; else k.F = true; }
     Bytes body; for (auto &k : kids) k.encode(body);
     if (d.pick(4) != 0) { // padding so that the total length is even: 7E 01 01 (odd content) or 7E 02 01 01
         Tlv pad = Tlv::raw(0x1e, (body.size() % 2) ? Bytes{1} : Bytes{1, 1}, true, true); Bytes pb = pad.enc(); c = pb; c.insert(c.end(), body.begin(), body.end());
@@ -222,8 +227,9 @@ static void checkCalTime(Case &c, KSI_CTX *ctx, const std::vector<bool> &dirs, u
     KSI_CalendarHashChain_free(ch);
 }
 static void modeCalTime(Dec &d, Case &c) {
-    Ctx ctx; static const uint64_t ps[] = {1, 2, 3, 0xffffffffULL, 0x100000000ULL, 0x7fffffffULL, 0x80000000ULL, 1500000000ULL, 0x3fffffffffffffffULL};
-    uint64_t p; unsigned m = d.pick(4); if (m == 0) p = ps[d.pick(9)]; else if (m == 1) p = d.raw(4); else if (m == 2) p = d.u64() >> 2; else p = 1400000000ULL + d.raw(3);
+    Ctx ctx; static const uint64_t ps[] = {1, 2, 3, 0xffffffffULL, 0x100000000ULL, 0x7fffffffULL, 0x80000000ULL, 1500000000ULL, 0x3fffffffffffffffULL, 0x4000000000000000ULL, 0x4000000000000001ULL, 0x7fffffffffffffffULL, 0x7ffffffffffffffeULL, 0x5a5a5a5a5a5a5a5aULL};
+    // publication times over the whole non-negative time_t range (values from 2^63 on cannot be represented in the result type and are left out)
+    uint64_t p; unsigned m = d.pick(4); if (m == 0) p = ps[d.pick(14)]; else if (m == 1) p = d.raw(4); else if (m == 2) p = d.u64() >> (1 + d.pick(3)); else p = 1400000000ULL + d.raw(3);
     if (p == 0) p = 1;
     uint64_t t; unsigned tm = d.pick(4); if (tm == 0) t = p; else if (tm == 1) t = p - (p > 10 ? d.pick(10) : 0); else if (tm == 2) t = d.u64() % (p + 1); else t = p > 100000 ? p - d.raw(2) : d.pick((uint32_t)p + 1);
     if (t > p) t = p;
@@ -235,6 +241,7 @@ static void modeCalTime(Dec &d, Case &c) {
     else if (pert == 4 && dirs.size() >= 2) { size_t i = d.pick((uint32_t)dirs.size() - 1); bool x = dirs[i]; dirs[i] = dirs[i + 1]; dirs[i + 1] = x; how = "swap"; }
     Bytes sib = genImprint(d, 1);
     checkCalTime(c, ctx, dirs, p, sib);
+    if (p >> 62) c.cls("caltime:publication-time>=2^62");
     c.nontrivial = true; c.cls("caltime:" + how); c.desc = "caltime p=" + std::to_string(p) + " t=" + std::to_string(t) + " " + how + " n=" + num((long long)dirs.size());
 }
 
